@@ -2,6 +2,7 @@
 
 sc['deps'] = {
    'roots': [names],                       parameters of the task function
+   'overrides': {declared: replacement},   broker.dependency_overrides between generated nodes
    'nodes': {name: {'style': 'plain'|'aplain'|'gen'|'agen'|'cm'|'acm',
                     'children': [names], 'cache': bool, 'gate': bool, 'gate_close': bool,
                     'fail': [message indices] , 'ctx': bool}}
@@ -151,6 +152,11 @@ class DepWorld(RecvWorld):
 
         for r in deps["roots"]:
             build(r)
+        # dependency_overrides: declared function -> replacement function (both generated)
+        for declared, replacement in (deps.get("overrides") or {}).items():
+            build(declared)
+            build(replacement)
+            broker.dependency_overrides[ns[declared]] = ns[replacement]
         tparams = ", ".join(f"{r}=_DEP({r}, use_cache={bool(nodes[r].get('cache', True))})" for r in deps["roots"])
         extra = ", ctx: Context = _DEP()" if deps.get("task_ctx") else ""
         tsrc = f"""
